@@ -19,6 +19,9 @@ EVIDENCE_DIR = os.path.join(_OUT, "evidence")
 REPLAY_DIR = os.path.join(_OUT, "replays")
 KNOWN = os.path.join(VERIF, "known_findings.json")
 
+REPO_SRC = os.environ.get("VERIF_REPO_SRC", "/repo/src")
+REPO_ROOT = os.path.dirname(REPO_SRC)
+
 _scratch = None
 
 
